@@ -409,3 +409,71 @@ pub proof fn lemma_has_push(v: Seq<u64>, x: u64)
 def merge_unit(text):
     return ("use vstd::prelude::*;\nuse std::collections::{HashMap, HashSet};\nverus! {\nbroadcast use vstd::std_specs::hash::group_hash_axioms;\n"
             + _row_model() + merge_rows_fn(text) + vlib.verus_canary("canary_merge", "x: u64", []) + "\n} // verus!\nfn main() {}\n")
+
+
+# ---------------------------------------------------------------------------------------------------------------------
+# which output columns become optional
+COLS_MODEL = """
+#[derive(Clone, Copy, PartialEq, Eq, Structural)]
+pub struct ValueKind { pub id: u64 }
+impl ValueKind { pub fn clone(&self) -> (r: ValueKind) ensures r == *self, { *self } }
+#[derive(Clone, Copy, PartialEq, Eq, Structural)]
+pub struct Name { pub id: u64 }
+pub struct MechTable { pub data: Vec<(u64, (ValueKind, u64))>, pub id: u64 }
+pub uninterp spec fn optional(k: ValueKind) -> ValueKind;          // make_optional_kind
+pub uninterp spec fn name_of(t: u64, col: u64) -> Name;             // the column's name (or its id as text)
+#[verifier::external_body]
+pub fn make_optional_kind(k: &ValueKind) -> (r: ValueKind) ensures r == optional(*k), { unimplemented!() }
+#[verifier::external_body]
+pub fn col_name(t: &MechTable, col: &u64) -> (r: Name) ensures r == name_of(t.id, *col), { unimplemented!() }
+// ---- THE CONTRACT (C18): the output has the union of the columns -- every lhs column, then every rhs column that is not a common one --
+// and a column becomes optional exactly when it can be missing: an lhs-only column in a right / full outer join (rows that come from rhs
+// alone), an rhs-only column in a left / full outer join (rows that come from lhs alone); common columns are never missing
+pub open spec fn lhs_col(lhs: MechTable, common_lhs: Set<u64>, mode: JoinMode, i: int) -> (u64, ValueKind, Name) {
+  let (id, (kind, _c)) = lhs.data@[i];
+  (id, if !common_lhs.contains(id) && (mode is RightOuter || mode is FullOuter) { optional(kind) } else { kind }, name_of(lhs.id, id))
+}
+pub open spec fn lhs_cols(lhs: MechTable, common_lhs: Set<u64>, mode: JoinMode, n: int) -> Seq<(u64, ValueKind, Name)> decreases n {
+  if n <= 0 { Seq::empty() } else { lhs_cols(lhs, common_lhs, mode, n - 1).push(lhs_col(lhs, common_lhs, mode, n - 1)) }
+}
+pub open spec fn rhs_cols(rhs: MechTable, common_rhs: Set<u64>, mode: JoinMode, n: int) -> Seq<(u64, ValueKind, Name)> decreases n {
+  if n <= 0 { Seq::empty() } else {
+    let (id, (kind, _c)) = rhs.data@[n - 1];
+    if common_rhs.contains(id) { rhs_cols(rhs, common_rhs, mode, n - 1) }
+    else { rhs_cols(rhs, common_rhs, mode, n - 1).push((id, if mode is LeftOuter || mode is FullOuter { optional(kind) } else { kind }, name_of(rhs.id, id))) }
+  }
+}
+"""
+
+
+def output_cols_fn(text):
+    """(F) `build_joined_table` from `let mut output_cols` to (not including) the semi/anti override `if matches!(mode, JoinMode::LeftSemi | JoinMode::LeftAnti)`:
+      O1 `for (ID, (kind, _)) in T.data.iter() {` -> `let mut i_ = 0; while i_ < T.data.len() { let ID = &T.data[i_].0; let kind = &(T.data[i_].1).0; i_ += 1;`
+      O2 `T.col_names.get(ID).cloned().unwrap_or_else(|| ID.to_string())` -> `col_name(T, ID)`;  `Vec<(u64, ValueKind, String)>` -> `Vec<(u64, ValueKind, Name)>`"""
+    sig, body = extract_fn(text, "build_joined_table")
+    b0 = re.sub(r"//[^\n]*", "", body).replace("\r", "")
+    a = find_code(b0, r"let\s+mut\s+output_cols\s*:")
+    z = find_code(b0, r"if\s+matches!\(\s*mode\s*,\s*JoinMode::LeftSemi\s*\|\s*JoinMode::LeftAnti\s*\)\s*\{")
+    if not a or not z or z.start() < a.start():
+        raise AnchorLost("build_joined_table: `let mut output_cols` .. the semi/anti override not found")
+    b = b0[a.start():z.start()]
+    b = b.replace("Vec<(u64, ValueKind, String)>", "Vec<(u64, ValueKind, Name)>").replace("vec![]", "Vec::new()")
+    b = re.sub(r"(\w+)\s*\.col_names\s*\.get\(\s*(\w+)\s*\)\s*\.cloned\(\)\s*\.unwrap_or_else\(\s*\|\|\s*\2\.to_string\(\)\s*\)", r"col_name(\1, \2)", b)
+    INV_L = ("    invariant i_ <= lhs.data@.len(), output_cols@ =~= lhs_cols(*lhs, common_lhs@, mode, i_ as int),\n    decreases lhs.data@.len() - i_,\n")
+    INV_R = ("    invariant j_ <= rhs.data@.len(), output_cols@ =~= lhs_cols(*lhs, common_lhs@, mode, lhs.data@.len() as int) + rhs_cols(*rhs, common_rhs@, mode, j_ as int),\n    decreases rhs.data@.len() - j_,\n")
+    b, n1 = re.subn(r"for\s+\(\s*lhs_id\s*,\s*\(\s*kind\s*,\s*_\s*\)\s*\)\s+in\s+lhs\.data\.iter\(\)\s*\{",
+                    "let mut i_: usize = 0;\n        while i_ < lhs.data.len()\n" + INV_L + "        {\n            let lhs_id = &lhs.data[i_].0; let kind = &(lhs.data[i_].1).0; i_ += 1;\n            proof { reveal_with_fuel(lhs_cols, 2); }", b)
+    b, n2 = re.subn(r"for\s+\(\s*rhs_id\s*,\s*\(\s*kind\s*,\s*_\s*\)\s*\)\s+in\s+rhs\.data\.iter\(\)\s*\{",
+                    "let mut j_: usize = 0;\n        while j_ < rhs.data.len()\n" + INV_R + "        {\n            let rhs_id = &rhs.data[j_].0; let kind = &(rhs.data[j_].1).0; j_ += 1;\n            proof { reveal_with_fuel(rhs_cols, 2); }", b)
+    if n1 != 1 or n2 != 1:
+        raise AnchorLost("build_joined_table: the two loops that build output_cols not found")
+    if re.search(r"\b(iter\(\)|cloned|to_string|unwrap_or_else)\b", b):
+        raise AnchorLost("build_joined_table: the output_cols computation is outside the transcription rules")
+    return ("fn output_columns(lhs: &MechTable, rhs: &MechTable, mode: JoinMode, common_lhs: &HashSet<u64>, common_rhs: &HashSet<u64>) -> (output_cols: Vec<(u64, ValueKind, Name)>)\n"
+            "  ensures output_cols@ =~= lhs_cols(*lhs, common_lhs@, mode, lhs.data@.len() as int) + rhs_cols(*rhs, common_rhs@, mode, rhs.data@.len() as int),\n{\n"
+            + b + "\n  output_cols\n}\n")
+
+
+def cols_unit(text):
+    return ("use vstd::prelude::*;\nuse std::collections::HashSet;\nverus! {\nbroadcast use vstd::std_specs::hash::group_hash_axioms;\n"
+            + enum_text(text).replace("#[derive(Clone, Copy)]", "#[derive(Clone, Copy, PartialEq, Eq, Structural)]") + COLS_MODEL + output_cols_fn(text) + vlib.verus_canary("canary_cols", "x: u64", []) + "\n} // verus!\nfn main() {}\n")
